@@ -254,7 +254,7 @@ class C19(core.PropBase):
     id = "C19"
     component = "accept"
     extract_file = "ExtractAccept.v"
-    chars = _SRC_CHARS + "".join(chr(i) for i in range(128, 256)) + "٣　 ²\u2003\u00a0"
+    chars = _SRC_CHARS + "".join(chr(i) for i in range(128, 256)) + "٣　 ²\u2003\u00a0" + M.ODD_CHARS
     uses_table = True
     chunk_size = 30
     theorem_for_mismatch = "C19_key_order / C19_blanks / C19_rename (metamorphic: verdict and Job of a document vs its transformed variant)"
@@ -275,6 +275,9 @@ class C19(core.PropBase):
                 # rules that speak about NAMES (uniqueness, dependencies, clashes): their verdict must survive the renaming
                 # and the re-ordering of keys whatever the names are and however they sort
                 ops = [list(o) for o in M.mutate(rng, doc, n=1, only=["duplicate_name", "bad_dependency", "env_clash"])]
+            elif i % 10 == 4 and kind == "job":
+                # range expressions in their compact spelling, with digits of other scripts: blanks around the tokens decide nothing
+                ops = [list(o) for o in M.mutate(rng, doc, n=1, only=["odd_range"])]
             elif rng.random() < 0.34:
                 ops = [list(o) for o in M.mutate(rng, doc, n=rng.choice([1, 1, 2]))]
             try:
